@@ -25,7 +25,8 @@ namespace detail
 {
 template <typename Dest, typename Source>
 std::enable_if_t<
-    std::is_signed_v<Dest> == std::is_signed_v<Source> && sizeof(Dest) >= sizeof(Source),
+    std::is_signed_v<Dest> == std::is_signed_v<Source> &&
+        std::numeric_limits<Dest>::digits >= std::numeric_limits<Source>::digits,
     fcppt::optional::object<Dest>>
 truncation_check(Source const _source)
 {
@@ -34,7 +35,8 @@ truncation_check(Source const _source)
 
 template <typename Dest, typename Source>
 std::enable_if_t<
-    std::is_unsigned_v<Dest> && std::is_unsigned_v<Source> && sizeof(Dest) < sizeof(Source),
+    std::is_unsigned_v<Dest> && std::is_unsigned_v<Source> &&
+        std::numeric_limits<Dest>::digits < std::numeric_limits<Source>::digits,
     fcppt::optional::object<Dest>>
 truncation_check(Source const _source)
 {
@@ -47,7 +49,8 @@ truncation_check(Source const _source)
 
 template <typename Dest, typename Source>
 std::enable_if_t<
-    std::is_signed_v<Dest> && std::is_signed_v<Source> && sizeof(Dest) < sizeof(Source),
+    std::is_signed_v<Dest> && std::is_signed_v<Source> &&
+        std::numeric_limits<Dest>::digits < std::numeric_limits<Source>::digits,
     fcppt::optional::object<Dest>>
 truncation_check(Source const _source)
 {
